@@ -409,7 +409,13 @@ var liar = &core.Check{Name: "c07/liar", Quick: 15000, Thorough: 1500000, Hang: 
 
 var random = &core.Check{Name: "c07/random", Quick: 6000, Thorough: 600000, Hang: hang, Fn: func(c *core.Ctx) error {
 	var data []byte
-	switch c.Weighted("kind", 3, 1) {
+	switch c.Weighted("kind", 3, 1, 4) {
+	case 2: // a self-consistent header in front of random cell data: gets past header validation
+		body := c.Blob("body", 120)
+		k := 1 + c.Intn("cells", 6)
+		data = append(data, 0xb5, 0xee, 0x9c, 0x72, 0x01, 0x01, byte(k), 0x01, 0x00, byte(len(body)), byte(c.Intn("root", k)))
+		data = append(data, body...)
+		c.Class("consistent header + random cells")
 	case 0:
 		magics := [][]byte{{0xb5, 0xee, 0x9c, 0x72}, {0x68, 0xff, 0x65, 0xf3}, {0xac, 0xc3, 0xa7, 0x28}}
 		data = append(data, magics[c.Choose("magic", 3)]...)
